@@ -1604,6 +1604,16 @@ struct H {
                             return c;
                         });
     }
+    // coverage-guided mode: selector bytes, then entropy
+    static bool from_fuzz(const uint8_t *d, size_t n, Case &c) {
+        pbt::FuzzBytes f(d, n);
+        static const int wd[] = {8, 16, 32, 64};
+        uint8_t          s    = f.sel();
+        c.word = wd[s & 3];
+        c.bits = kWidths[(s >> 2) % 10];
+        c.bytes = f.rest();
+        return true;
+    }
     static std::string to_text(const Case &c) {
         pbt::KV kv;
         if (c.dw != 0) {
@@ -1722,4 +1732,4 @@ struct H {
 
 } // namespace
 
-int main(int argc, char **argv) { return pbt::run_main<H>(argc, argv); }
+PBT_MAIN(H)
